@@ -14,6 +14,7 @@ func (a *analyzer) prepass() {
 	a.varLits = map[types.Object][]*ast.FuncLit{}
 	a.tracked = map[*ast.FuncLit]bool{}
 	a.freshVar = map[types.Object]bool{}
+	a.sliceParam = map[types.Object]bool{}
 	a.escapePos = map[types.Object]token.Pos{}
 	a.syncOK = map[string]bool{}
 	a.ifaceImpls = map[*types.Func][]*types.Func{}
@@ -22,6 +23,7 @@ func (a *analyzer) prepass() {
 		a.nameLits(fi.decl.Body)
 		a.trackFuncVars(fi)
 		a.findFresh(fi)
+		a.findSliceParams(fi)
 	}
 	for name, idx := range syncCallers {
 		a.syncOK[name] = a.checkSyncCaller(name, idx)
@@ -578,4 +580,29 @@ func (a *analyzer) lockOwner(k lockKey) (ownerChain, ownerStruct, lockField stri
 		lastName = ""
 	}
 	return strings.Join(comps[:last], "."), lastName, strings.Join(comps[last:], ".")
+}
+
+// findSliceParams collects the slice-typed parameters (not receivers) of a function and of its literals.
+func (a *analyzer) findSliceParams(fi *funcInfo) {
+	add := func(ft *ast.FuncType) {
+		if ft == nil || ft.Params == nil {
+			return
+		}
+		for _, f := range ft.Params.List {
+			for _, n := range f.Names {
+				if v, ok := a.info.Defs[n].(*types.Var); ok && v != nil {
+					if _, isSlice := v.Type().Underlying().(*types.Slice); isSlice {
+						a.sliceParam[v] = true
+					}
+				}
+			}
+		}
+	}
+	add(fi.decl.Type)
+	ast.Inspect(fi.decl.Body, func(n ast.Node) bool {
+		if l, ok := n.(*ast.FuncLit); ok {
+			add(l.Type)
+		}
+		return true
+	})
 }
